@@ -32,7 +32,8 @@ package tlog
 //@   ensures  [errors-reported-2] logLen() == 2 ==> err == logErr(1)
 //@   ensures  [success] err == nil ==> logLen() == 2 && logErr(0) == nil
 //@   modifies frame.SpecWriterBuf(w.frameWriter)[:], ghost:log,
-//@            *frame.SpecMessageField(entry.Frame) when old(frame.SpecFrameMessage(entry.Frame)) != nil && !old(frame.SpecIsRaw(frame.SpecFrameMessage(entry.Frame)))
+//@            *frame.SpecMessageField(entry.Frame) when old(frame.SpecFrameMessage(entry.Frame)) != nil && !old(frame.SpecIsRaw(frame.SpecFrameMessage(entry.Frame))),
+//@            *frame.SpecChecksumField(entry.Frame) when old(frame.SpecFrameMessage(entry.Frame)) != nil && !old(frame.SpecIsRaw(frame.SpecFrameMessage(entry.Frame)))
 
 //@ func (*Reader).Initialize
 //@   requires r != nil
